@@ -35,7 +35,7 @@ def main():
         result["steps"].append(["apply", rc])
         if rc:
             print("APPLY FAILED\n", out); return 1
-        pkgs = " ".join(meta.get("packages_tested", []))
+        pkgs = " ".join(p.split()[0] for p in meta.get("packages_tested", []) if p.strip())
         rc, out = run(f"go build {pkgs}", wt)
         result["steps"].append(["build", rc])
         if rc:
